@@ -74,11 +74,19 @@ Definition sc_future_round_view : list event :=
   enter0 ++ [EvView (sv 1 2 5 (svs 0 30 [] [([], 30)]) []) None;
              EvView (sv 2 0 5 (svs 0 30 [] [([7], 30)]) [sph 7]) None; EvTimer; EvAnswer 0 []].
 
+(** the witness of C12sm_timed_step_has_timer_refuted (Proofs/SMInvTimer.v): commit wait, jump-ahead, the mirror
+    answers the new round entrance with the committed header: the machine sits in round (1,1) with the stale
+    step AwaitingProposal and no timer (same root cause as witness w1: the step is not reset on a
+    committed-header response) *)
+Definition sc_stale_step_after_committed_header : list event :=
+  enter0 ++ [EvView (sv 1 0 2 (svs 0 0 [] []) []) (Some (1, 1)); EvRERespCH [7] 1 0; EvTimer].
+
 Definition scenarios : list (list event) :=
   [sc_nil_prevote_restart_block; sc_block_prevote_restart_nil; sc_block_prevote_restart_other;
    sc_nil_precommit_restart_block; sc_block_precommit_restart_nil; sc_proposal_restart_other_proposal;
    sc_prevote_delay_then_commit; sc_prevote_delay_then_nil_commit; sc_prevote_delay_then_precommit_delay;
-   sc_prevote_delay_elapses; sc_precommit_delay_then_commit; sc_stale_round_nil_quorum; sc_future_round_view].
+   sc_prevote_delay_elapses; sc_precommit_delay_then_commit; sc_stale_round_nil_quorum; sc_future_round_view;
+   sc_stale_step_after_committed_header].
 
 Definition scenario_report : list (list (list N * (list (list N) * list (list N)))) :=
   map (fun es => combine (map enc_event es) (map project (run_events (sm0 true) es))) scenarios.
